@@ -415,6 +415,11 @@ static __always_inline int parse_packet_headers(struct xdp_md *ctx,
 	if (pkt->ip->ihl < 5)
 		return -1;
 
+	/* IPv4 options present: the reply's header checksum and lengths are
+	 * computed for a 20-byte header, so such requests go to the slow path */
+	if (pkt->ip->ihl != 5)
+		return -1;
+
 	/* Parse UDP header (account for IP header length) */
 	pkt->udp = (void *)pkt->ip + (pkt->ip->ihl * 4);
 	if ((void *)(pkt->udp + 1) > data_end)
